@@ -365,3 +365,27 @@ func VerifHarness_C01_O10() {
 	verifNetRun(steps, window, 0, limit, -1, verifTier() > 0)
 	verifReach("end")
 }
+
+// C05/O6 (= C06/O7) — node-level gossip with failing and truncated syncs, then
+// a fair suffix: every node submits a transaction before each of its gossips;
+// one Sync and / or one EagerSync message is lost, the sync limit is 1000 or 4
+// (pull answers and pushes truncated); afterwards 12 all-pairs cycles without
+// new submissions.  Every committed transaction is an accepted one, byte for
+// byte, once, in submission order — and every accepted transaction is
+// committed by all four nodes, whose pools are empty.
+// (Bound, stated: a sync limit BELOW the number of events a gossip cycle
+// creates - 2 with four validators - never drains the backlog: every gossip
+// moves at most limit events each way and creates two.  The solver exhibits
+// that at once; it is the configuration, not a defect, and is outside the
+// claim: the smallest limit used here is 4.)
+func VerifHarness_C05_O6() {
+	steps, window := 20, 10
+	if verifTier() > 0 {
+		steps, window = 28, 20
+	}
+	limit := []int{1000, 4}[verifChoice("syncLimit", 2)]
+	verifNetRun(steps, window, 12, limit, -1, verifTier() > 0)
+	verifReach("end")
+}
+
+func VerifHarness_C06_O7() { VerifHarness_C05_O6() }
